@@ -128,5 +128,6 @@ def refOps (c : Crv) : PointOps Pt where
   scale A := .ok A
   containsPoint x y := containsPoint c.p c.a c.b x y
   mkPoint x y := some (x, y)
+  fromAffine A := A
 
 end Ecdsa.Affine
